@@ -189,9 +189,16 @@ class Network:
         given host and service, based on current set of compromised hosts on
         network.
         """
+        if self.subnet_public(host_addr[0]) \
+           and self.subnet_traffic_permitted(
+               INTERNET, host_addr[0], service
+           ):
+            # traffic from the internet into a public subnet is subject to
+            # the (INTERNET, subnet) firewall rule
+            return True
+
         for src_addr in self.address_space:
-            if not state.host_compromised(src_addr) and \
-               not self.subnet_public(src_addr[0]):
+            if not state.host_compromised(src_addr):
                 continue
             if not self.subnet_traffic_permitted(
                     src_addr[0], host_addr[0], service
